@@ -111,10 +111,14 @@ def to_symbolic_model(model: Model) -> SymbolicModel:
             )
     for cpd, dstoich in cache.dyn_stoich_by_cpds.items():
         for rxn, der in dstoich.items():
-            eqs[cpd] = eqs.get(cpd, sympy.Float(0.0)) + fn_to_sympy(
-                der.fn,
-                [symbols[i] for i in der.args] * rxns[rxn],  # type: ignore
-            )  # type: ignore
+            if (
+                coef := fn_to_sympy(
+                    der.fn, origin=rxn, model_args=[symbols[i] for i in der.args]
+                )
+            ) is None:
+                msg = f"Unable to parse stoichiometry of '{cpd}' in reaction '{rxn}'"
+                raise ValueError(msg)
+            eqs[cpd] = eqs.get(cpd, sympy.Float(0.0)) + coef * rxns[rxn]  # type: ignore
 
     return SymbolicModel(
         variables=variables,
